@@ -31,7 +31,7 @@ from __future__ import annotations
 
 import ast
 
-from ..astutil import attr_chain, callee_name, handler_types, text
+from ..astutil import call_recv, attr_chain, callee_name, handler_types, text
 from ..astutil import calls as calls_in
 from ..core import Result
 from ..engines import hnd
@@ -211,7 +211,7 @@ def run(repo: Repo) -> Result:
     a = li.node.args
     pos = a.posonlyargs + a.args
     defaults = dict(zip([x.arg for x in pos[len(pos) - len(a.defaults):]], a.defaults))
-    sup = [c for c in calls_in(li.node) if isinstance(c.func, ast.Attribute) and c.func.attr == "__init__" and isinstance(c.func.value, ast.Call) and callee_name(c.func.value) == "super"]
+    sup = [c for c in calls_in(li.node) if isinstance(c.func, ast.Attribute) and c.func.attr == "__init__" and isinstance(call_recv(c), ast.Call) and callee_name(call_recv(c)) == "super"]
     if len(sup) != 1:
         raise AnchorMissing("LimitedStringIO.__init__ no longer calls super().__init__ exactly once")
     nl = sup[0].args[1] if len(sup[0].args) > 1 else next((k.value for k in sup[0].keywords if k.arg == "newline"), None)
@@ -287,7 +287,7 @@ def run(repo: Repo) -> Result:
                         nm = callee_name(c)
                         if nm not in UNDO or not isinstance(c.func, ast.Attribute):
                             continue
-                        chain = text(c.func.value)
+                        chain = text(call_recv(c))
                         # the matching push must be a statement of the enclosing block before the try,
                         # with nothing that can raise in between
                         ok = False
@@ -304,13 +304,13 @@ def run(repo: Repo) -> Result:
                                         cseq, ci = ps, next(k for k, q in enumerate(ps) if q is blk)
                         for j in range(ci - 1, -1, -1):
                             p_ = cseq[j]
-                            if isinstance(p_, ast.Expr) and isinstance(p_.value, ast.Call) and isinstance(p_.value.func, ast.Attribute) and p_.value.func.attr in UNDO[nm] and text(p_.value.func.value) == chain:
+                            if isinstance(p_, ast.Expr) and isinstance(p_.value, ast.Call) and isinstance(p_.value.func, ast.Attribute) and p_.value.func.attr in UNDO[nm] and text(call_recv(p_.value)) == chain:
                                 ok = True
                                 break
                             if any(True for _ in calls_in(p_)) or isinstance(p_, (ast.With, ast.Try, ast.For, ast.While, ast.If)):
                                 break
                         if not ok:
-                            inside = any(isinstance(y, ast.Call) and isinstance(y.func, ast.Attribute) and y.func.attr in UNDO[nm] and text(y.func.value) == chain for b in st.body for y in ast.walk(b))
+                            inside = any(isinstance(y, ast.Call) and isinstance(y.func, ast.Attribute) and y.func.attr in UNDO[nm] and text(call_recv(y)) == chain for b in st.body for y in ast.walk(b))
                             res.add(
                                 "C08-MASK",
                                 f.qual,
